@@ -68,6 +68,8 @@ func denomStr(d int) string {
 		return "!bad"
 	case 4:
 		return "btc" // valid, held by everybody, not the bond denom
+	case 5:
+		return "feetok" // symbol of a token of scale 6 issued by the token driver's setup (min unit "ufeetok")
 	case 10:
 		return "htltbnb"
 	case 11:
@@ -79,7 +81,7 @@ func denomStr(d int) string {
 }
 
 func denomClass(s string) int {
-	for _, d := range []int{0, 1, 2, 3, 4, 10, 11, 12} {
+	for _, d := range []int{0, 1, 2, 3, 4, 5, 10, 11, 12} {
 		if denomStr(d) == s {
 			return d
 		}
